@@ -167,11 +167,12 @@ fn angular_oracle(
     }
     // Mechanism classes. A sweep so small that the two half planes get PARALLEL integer normal
     // vectors (always for sweep 0; below ~0.06 degrees in the f32 build, below 1 degree in the
-    // fixed_point build, which rounds angles to whole degrees) makes `Operation::Intersection` of
+    // fixed_point build, which rounds angles to whole degrees) made `Operation::Intersection` of
     // `distance <= 0` and `distance >= 0` the whole LINE through the centre: the points on the ray
-    // OPPOSITE to the sweep are accepted too. That mechanism gets its own key; it is recognised by
-    // the plane sector the code computed (intersection tag, normals parallel and equally directed)
-    // and by the offending points all lying on that line.
+    // OPPOSITE to the sweep were accepted too (found by this oracle, witness in corpus/C18.ops,
+    // repaired in /repo by the bisector test of `PlaneSector::contains`). That mechanism keeps its
+    // own key; it is recognised by the plane sector the code computed (intersection tag, normals
+    // parallel and equally directed) and by the offending point lying on that line.
     let (l, r) = (ps.1, ps.2);
     let degenerate_line = ps.0 == 0
         && l[0] as i64 * r[1] as i64 - l[1] as i64 * r[0] as i64 == 0
